@@ -280,8 +280,13 @@ pub fn scenario_invalid_parameters_refused<C: Suite>(rng: &mut TestRng, p: &Para
         "no-identifiers",
         "duplicate-adjacent",
         "duplicate-non-adjacent",
+        "too-many-identifiers-by-65536",
     ];
-    let kind = kinds[rng.below(kinds.len())];
+    let mut kind = kinds[rng.below(kinds.len())];
+    if kind == "too-many-identifiers-by-65536" && rng.chance(50) {
+        // (65536 further identifiers have to be built: keep it rarer than the others)
+        kind = "too-many-identifiers";
+    }
     notes.insert("invalid".into(), json!(kind));
     let outsider = need(Id::<C>::derive(b"one identifier too many"), "derive")?;
     if ids.contains(&outsider) {
@@ -315,6 +320,25 @@ pub fn scenario_invalid_parameters_refused<C: Suite>(rng: &mut TestRng, p: &Para
             rng.shuffle(&mut list);
             use_default = false;
         }
+        "too-many-identifiers-by-65536" => {
+            // the list length equals max_signers modulo 2^16 (a length check done in u16 arithmetic lets it pass)
+            let have: std::collections::BTreeSet<Id<C>> = list.iter().copied().collect();
+            let mut extra: Vec<Id<C>> = Vec::with_capacity(65536);
+            let mut k = 1u32;
+            while extra.len() < 65536 {
+                let cand = if k <= 65535 {
+                    need(Id::<C>::try_from(k as u16), "id")?
+                } else {
+                    need(Id::<C>::derive(format!("surplus-{k}").as_bytes()), "derive")?
+                };
+                k += 1;
+                if !have.contains(&cand) {
+                    extra.push(cand);
+                }
+            }
+            list.extend(extra);
+            use_default = false;
+        }
         "no-identifiers" => {
             list.clear();
             use_default = false;
@@ -346,7 +370,11 @@ pub fn scenario_invalid_parameters_refused<C: Suite>(rng: &mut TestRng, p: &Para
     }
     notes.insert("max_signers".into(), json!(n));
     notes.insert("min_signers".into(), json!(t));
-    notes.insert("identifier_list_hex".into(), json!(if use_default { vec!["<default>".to_string()] } else { ids_hex::<C>(&list) }));
+    notes.insert("identifier_list_length".into(), json!(if use_default { n as usize } else { list.len() }));
+    notes.insert(
+        "identifier_list_hex".into(),
+        json!(if use_default { vec!["<default>".to_string()] } else { ids_hex::<C>(list.get(..list.len().min(12)).unwrap_or(&[])) }),
+    );
     fn mk<'a, C: Suite>(use_default: bool, l: &'a [Id<C>]) -> IdentifierList<'a, C> {
         if use_default {
             IdentifierList::Default
